@@ -4,7 +4,7 @@ Clauses decided: (a) directive accumulation: no membership test on a container t
 that point, no accumulator re-initialised inside the loop that fills it and publishes it; (b) resolve_tag:
 `!!` resolves through tags["!!"] else the constant tag:yaml.org,2002:, an undeclared `!name!` handle reaches
 Err, the suffix is returned unchanged; (c) Parser.tags is written only by parser_process_directives and by
-document_end's clear() under !keep_tags.
+document_end's clear() under !keep_tags; (d) percent-decoding of tag text is UTF-8 decoding (rules/uridecode.py).
 """
 from .common import *
 from engine import tables
@@ -23,7 +23,7 @@ def new_report(tier):
         "HashMap::get returns None exactly for absent keys (std)",
     ], "E2 forward data-flow of container emptiness over every function of both crates (membership tests on provably empty "
        "containers; accumulators constructed inside the loop that fills and publishes them); E4 constants and guard=>Err "
-       "dominance in resolve_tag; E6 writer inventory of Parser.tags. Percent-decoding of suffixes is not decided.")
+       "dominance in resolve_tag; E6 writer inventory of Parser.tags; E8 table of one round of scan_uri_escapes (256 bytes x pending count) against UTF-8.")
 
 
 def container_locals(f):
@@ -239,6 +239,26 @@ def run(tier):
                     det = {"escaping_path": esc}
     rep.check(ok, "tags-reset-at-document-end", "document_end", "some accepting path of document_end leaves the tag handles in place although keep_tags is off "
               "(declarations must end with their document)", site=de.span, detail=det)
+    # (d) the suffix is percent-decoded: table of one round of scan_uri_escapes (E8)
+    from . import uridecode
+    n = uridecode.check(rep, F)
+    rep.extra["percent_decoding_cases"] = n
+    # ... and no '%' reaches tag text undecoded: in the functions that call the decoder, a character copied from the cursor is never '%'
+    # (E1 pass B: the class window at each push site)
+    from . import classdom
+    EB = classdom.run(F, 16)
+    pct = EB.A.mask([37])
+    callers = {k for k, f in F.fns.items() if any(ck and ck.endswith("::scan_uri_escapes") for _, _, ck, _ in f.calls())}
+    npush = 0
+    for (fk, bb), r in sorted(EB.pushes.items()):
+        if fk in callers and r["mask"]:
+            npush += 1
+            f = F.fns[fk]
+            rep.check(not (r["mask"] & pct), "percent-through-decoder", "%s:push#%d" % (short(fk), npush),
+                      "a '%' at the cursor can be copied into tag text without going through the percent-decoder", site=site(f, f.blocks[bb]["term"]["sp"]),
+                      detail={"class": EB.A.show(r["mask"])})
+    rep.floor("callers of the percent-decoder", len(callers), 3)
+    rep.floor("cursor characters copied into tag text", npush, 3)
     return rep
 
 
